@@ -51,13 +51,26 @@ def lonlat_to_cell(lon_lat: LonLat, resolution: int) -> int:
     N = 25
     scale = 50 / (2 ** hilbert_resolution)
     
+    # Offset the samples in the plane tangent to the sphere at the point, so that the search
+    # pattern keeps its shape at any latitude (offsets in lon/lat degenerate towards the poles)
+    center = to_cartesian(from_lonlat(lon_lat))
+    east = (-center[1], center[0], 0.0)
+    east_length = math.hypot(east[0], east[1])
+    east = (east[0] / east_length, east[1] / east_length, 0.0) if east_length > 1e-12 else (1.0, 0.0, 0.0)
+    north = (
+        center[1] * east[2] - center[2] * east[1],
+        center[2] * east[0] - center[0] * east[2],
+        center[0] * east[1] - center[1] * east[0]
+    )
     for i in range(N):
-        R = (i / N) * scale
-        coordinate = (
-            math.cos(i) * R + lon_lat[0],
-            math.sin(i) * R + lon_lat[1]
+        R = math.radians((i / N) * scale)
+        dx, dy = math.cos(i) * R, math.sin(i) * R
+        offset_point = (
+            center[0] + dx * east[0] + dy * north[0],
+            center[1] + dx * east[1] + dy * north[1],
+            center[2] + dx * east[2] + dy * north[2]
         )
-        samples.append(coordinate)
+        samples.append(to_lonlat(to_spherical(offset_point)))
 
     # Deduplicate estimates
     estimate_set = set()
